@@ -7,9 +7,25 @@ THEOREMS = [
     {"name": "C17_refused_for_unknown_execution", "strength": "F", "text": "refused with an error, state exactly as before"},
     {"name": "C17_accepted_effect", "strength": "F", "text": "accepted => status resuming and output reset"},
     {"name": "C17_appends_only", "strength": "F", "text": "a rerun only appends to the history (R18)"},
-    {"name": "(tested, not proved) convergence to the clean outcome; exactly the requested tasks re-executed; never stuck",
-     "strength": "T", "text": "monitor c17: admission/effect on random histories with reruns; twin simulation: fail, default "
-                              "rerun, re-executed actions succeed, compared with the clean run"},
+    {"name": "C17b_accepted_candidates / C17b_default_candidates / C17b_terminal_tasks / C17b_collapsed / "
+             "C17b_explicit_candidates (props/C17b.v)", "strength": "F",
+     "text": "WHAT is re-executed, exactly: with no request list, the last terminal abended record of each (task, route); with "
+             "an explicit list, the requested pairs minus those whose downstream sequence is a proper subset of another "
+             "request's (the collapse rule, after repair D31 -- Examples two_requests_collapsed, three_requests_collapsed)"},
+    {"name": "C17b_rerun_plain_exact / C17b_rerun_items_exact", "strength": "F",
+     "text": "the effect per candidate as an equation: a plain task gets a new record (same id, route, ctxs.in, prev; no "
+             "status, next, out) and a ready staged entry, the pointer moves, the old record loses only its terminal flag; a "
+             "staged with-items task gets its abended (or all) items reset and nothing appended"},
+    {"name": "C17b_accepted_frame / C17b_offers_after_rerun", "strength": "F",
+     "text": "NOTHING ELSE: contexts, routes, graph unchanged; the staged entries of non-candidate keys exactly as before "
+             "(stale entries survive -- where finding D21 lives); reruns gets one entry; status resuming, output reset; the "
+             "next poll offers only candidates' entries or entries staged before"},
+    {"name": "C17b_empty_rerun_accepted", "strength": "R",
+     "text": "finding D9 as an exact equation: with no candidate the call is accepted and leaves the workflow resuming with "
+             "nothing staged; Example engine_command_is_a_candidate is finding D8"},
+    {"name": "(tested, not proved) convergence to the clean outcome", "strength": "T",
+     "text": "monitor c17: admission/effect on random histories with reruns (1-3 requests); twin simulation: fail, default "
+             "rerun, re-executed actions succeed, compared with the clean run"},
 ]
 TRUSTED_BASE = common.TRUSTED_BASE_COMMON
 ASSUMPTIONS = ["convergence is a relation between two executions and is tested, not proved",
